@@ -123,11 +123,6 @@ theorem getProbabilities_of_scaled (r r' : QReg ℝ) (lam : ℝ) (hlam : lam ≠
 
 /-! ### conditioning: the state after a measurement -/
 
-theorem measure_wf (r : QReg ℝ) (mask d : Nat) (hwf : WF r) : WF (r.measureMask mask d).1 := by
-  by_cases hm : mask &&& r.qMask = 0
-  · rw [measure_of_zero r mask d hm]; exact hwf
-  · rw [measure_of_ne r mask d hm]; exact normalize_wf _ (collapse_wf r _ _ hwf)
-
 theorem normSq_collapse_ite (z : Cx ℝ) (i d m : Nat) :
     (if (i ^^^ d) &&& m ≠ 0 then (0 : Cx ℝ) else z).normSq
       = if i &&& m = d &&& m then z.normSq else 0 := by
@@ -184,14 +179,16 @@ theorem weight_collapse (r : QReg ℝ) (d m₁ m₂ v₂ : Nat) (hd : m₁ &&& m
   · rw [if_pos hb, if_neg ha, if_neg (fun h => ha (key.1 h).1)]
   · rw [if_neg hb, if_neg (fun h => hb (key.1 h).2)]
 
-/-- outcome probabilities in the (non-degenerate) post-measurement state are the conditional
-probabilities -/
+/-- outcome probabilities in the post-measurement state are the conditional probabilities.
+No hypothesis on the draw: the post-measurement state is a positive multiple of the collapsed one
+for every draw (`measure_scaled`). The quotient is a genuine conditional probability when the draw
+is possible, `0 < weight r m₁ (d &&& m₁)` (`weight_pos_of_possible`); for an impossible draw the
+register is the zero vector and both sides are `0 / 0 = 0`. -/
 theorem outcomeProb_measure (r : QReg ℝ) (hwf : WF r) (m₁ d m₂ v₂ : Nat)
-    (hin : m₁ &&& r.qMask = m₁) (hd : m₁ &&& m₂ = 0) (h2 : v₂ &&& m₂ = v₂)
-    (hbig : RegConsts.tiny < Real.sqrt (nrm (r.collapseMask d (m₁ &&& r.qMask)))) :
+    (hin : m₁ &&& r.qMask = m₁) (hd : m₁ &&& m₂ = 0) (h2 : v₂ &&& m₂ = v₂) :
     outcomeProb (r.measureMask m₁ d).1 m₂ v₂
       = weight r (m₁ ||| m₂) (d &&& m₁ ||| v₂) / weight r m₁ (d &&& m₁) := by
-  obtain ⟨lam, hlam, h⟩ := measure_nondeg r m₁ d hbig
+  obtain ⟨lam, hlam, h⟩ := measure_scaled r m₁ d
   rw [hin] at h
   have hscaled : ∀ i, bufFn (r.measureMask m₁ d).1.psi i
       = (bufFn (r.collapseMask d m₁).psi i).scale lam := by
@@ -200,10 +197,10 @@ theorem outcomeProb_measure (r : QReg ℝ) (hwf : WF r) (m₁ d m₂ v₂ : Nat)
     (measure_wf r m₁ d hwf) (measure_qNum r m₁ d) hscaled, outcomeProb_eq,
     nrm_collapse_eq_weight r hwf, weight_collapse r d m₁ m₂ v₂ hd h2]
 
-theorem weight_pos_of_nondeg (r : QReg ℝ) (hwf : WF r) (d m : Nat)
-    (hbig : RegConsts.tiny < Real.sqrt (nrm (r.collapseMask d m))) : 0 < weight r m (d &&& m) := by
+theorem weight_pos_of_possible (r : QReg ℝ) (hwf : WF r) (d m : Nat)
+    (hpos : 0 < nrm (r.collapseMask d m)) : 0 < weight r m (d &&& m) := by
   rw [← nrm_collapse_eq_weight r hwf]
-  exact Real.sqrt_pos.1 (lt_trans tiny_pos hbig)
+  exact hpos
 
 /-- a drawn index of non-zero amplitude gives an outcome of positive probability -/
 theorem outcomeProb_pos_of_drawn (r : QReg ℝ) (hwf : WF r) (m d : Nat) (hd : d < 2 ^ r.qNum)
@@ -216,17 +213,34 @@ theorem outcomeProb_pos_of_drawn (r : QReg ℝ) (hwf : WF r) (m d : Nat) (hd : d
   have hn : 0 < nrm r := lt_of_lt_of_le (nrm_collapse_pos r d m hsz hpos) (nrm_collapse_le r d m)
   rw [outcomeProb_eq]; exact div_pos hw hn
 
-/-- chain rule: P(first = v₁) · P(second = v₂ | first = v₁) = P(joint = v₁ ||| v₂) -/
+/-- reading `v₁ ||| v₂` on `m₁ ||| m₂` implies reading `v₁` on `m₁`: the joint weight is at most
+the marginal one -/
+theorem weight_joint_le (r : QReg ℝ) (m₁ m₂ v₁ v₂ : Nat) (hd : m₁ &&& m₂ = 0)
+    (h1 : v₁ &&& m₁ = v₁) (h2 : v₂ &&& m₂ = v₂) :
+    weight r (m₁ ||| m₂) (v₁ ||| v₂) ≤ weight r m₁ v₁ := by
+  unfold weight
+  apply sum_le_sum_of_subset_of_nonneg
+  · intro i hi
+    rw [mem_filter] at hi ⊢
+    exact ⟨hi.1, ((and_or_split i m₁ m₂ v₁ v₂ hd h1 h2).1 hi.2).1⟩
+  · intro i _ _
+    exact normSq_nonneg _
+
+/-- chain rule: P(first = v₁) · P(second = v₂ | first = v₁) = P(joint = v₁ ||| v₂), for every
+draw `d` (for an impossible one both sides are 0: the joint outcome is impossible too) -/
 theorem outcomeProb_chain (r : QReg ℝ) (hwf : WF r) (m₁ d m₂ v₂ : Nat)
-    (hin : m₁ &&& r.qMask = m₁) (hd : m₁ &&& m₂ = 0) (h2 : v₂ &&& m₂ = v₂)
-    (hbig : RegConsts.tiny < Real.sqrt (nrm (r.collapseMask d (m₁ &&& r.qMask)))) :
+    (hin : m₁ &&& r.qMask = m₁) (hd : m₁ &&& m₂ = 0) (h2 : v₂ &&& m₂ = v₂) :
     outcomeProb r m₁ (d &&& m₁) * outcomeProb (r.measureMask m₁ d).1 m₂ v₂
       = outcomeProb r (m₁ ||| m₂) (d &&& m₁ ||| v₂) := by
-  rw [outcomeProb_measure r hwf m₁ d m₂ v₂ hin hd h2 hbig, outcomeProb_eq, outcomeProb_eq]
-  have hpos : weight r m₁ (d &&& m₁) ≠ 0 := by
-    rw [hin] at hbig
-    exact ne_of_gt (weight_pos_of_nondeg r hwf d m₁ hbig)
-  field_simp
+  rw [outcomeProb_measure r hwf m₁ d m₂ v₂ hin hd h2, outcomeProb_eq, outcomeProb_eq]
+  have h1 : (d &&& m₁) &&& m₁ = d &&& m₁ := by rw [Nat.and_assoc, Nat.and_self]
+  rcases (weight_nonneg r m₁ (d &&& m₁)).eq_or_lt with hw | hw
+  · have hj : weight r (m₁ ||| m₂) (d &&& m₁ ||| v₂) = 0 :=
+      le_antisymm (by rw [hw]; exact weight_joint_le r m₁ m₂ _ v₂ hd h1 h2) (weight_nonneg _ _ _)
+    rw [← hw, hj]
+    simp
+  · have hne : weight r m₁ (d &&& m₁) ≠ 0 := ne_of_gt hw
+    field_simp
 
 /-! ### the covariance of the histogram sampler's linear map -/
 
@@ -297,13 +311,12 @@ theorem pairReg_weight_one : weight pairReg 1 1 = 16 / 25 := by
   simp [sum_range_succ, Cx.normSq]
   norm_num
 
-theorem pairReg_nondeg :
-    RegConsts.tiny < Real.sqrt (nrm (pairReg.collapseMask 3 (1 &&& pairReg.qMask))) := by
+/-- the draw `|11>` is possible when qubit 0 is measured -/
+theorem pairReg_pos : 0 < nrm (pairReg.collapseMask 3 (1 &&& pairReg.qMask)) := by
   have e : (1 &&& pairReg.qMask) = 1 := rfl
   rw [e, nrm_collapse_eq_weight pairReg pairReg_wf 3 1]
   have : (3 &&& 1 : Nat) = 1 := rfl
-  rw [this, pairReg_weight_one, show (16 / 25 : ℝ) = (4 / 5) ^ 2 by norm_num,
-    Real.sqrt_sq (by norm_num), tiny_real]
+  rw [this, pairReg_weight_one]
   norm_num
 
 end Qvnt
